@@ -2,6 +2,7 @@ import TrackVerif.LT.TextLemmas
 import TrackVerif.LT.Spec
 import TrackVerif.LT.CodecLemmas
 import TrackVerif.LT.XmlLemmas
+import TrackVerif.LT.TreeLemmas
 import TrackVerif.Generated.LT
 /-
   C13 — Encoded LapTimer files are well-formed XML in LapTimer's field syntax.
@@ -89,6 +90,24 @@ theorem document_is_laptimer_rendering (db : V) (root : String) (toks : List Xml
   have := Xml.replace_render {} toks hok []
   simp only [List.append_nil, replaceFrom] at this
   simp only [replaceAll, Xml.renderToks, this]
+
+/-- **every document is well-formed XML that says what it should**: whenever the marshalled
+    stream is an element tree with schema names (checked on every generated database), the bytes
+    the encoder writes are the UTF-8 header followed by a body that a strict tokenizer accepts —
+    no syntax error, tags properly nested — and that, layout whitespace aside, reads back as
+    exactly that tree with every text as a parser must return it (non-XML characters
+    substituted, nothing else changed) -/
+theorem document_is_wellformed (db : V) (root : String) (t : Xml.Tree) (f : Nat)
+    (hroot : rootName Spec.schema "DB" = some root)
+    (hm : marshalValue Spec.schema 64 root false (.named "DB") db = .ok (Xml.toksOf t))
+    (hok : Xml.treeOk t = true) :
+    ∃ body, encodeDoc Spec.schema db = .ok (Xml.xmlHeader ++ body) ∧
+      let toks := Xml.nest [] false (Xml.lexBody (f + 1 + (Xml.lexedOf 0 t).length) body)
+      toks.any Xml.isBad = false ∧
+      Xml.significant toks = Xml.significant (Xml.toksOf (Xml.substTree t)) := by
+  refine ⟨Xml.renderLTFrom {} (Xml.toksOf t), ?_, ?_⟩
+  · exact document_is_laptimer_rendering db root _ hroot hm (Xml.tokOk_of_treeOk t hok)
+  · exact Xml.printed_tree_reads_back t hok f
 
 /-! ### Field syntax, for every value -/
 
